@@ -16,15 +16,81 @@ class Unknown(Exception):
     pass
 
 
+class Rec(object):
+    """a domain value with named fields (one element of a list the peer sent), hashable."""
+
+    def __init__(self, **fields):
+        self.fields = fields
+
+    def _k(self):
+        return tuple(sorted((k, repr(v)) for k, v in self.fields.items()))
+
+    def __hash__(self):
+        return hash(self._k())
+
+    def __eq__(self, other):
+        return isinstance(other, Rec) and self._k() == other._k()
+
+    def __repr__(self):
+        return "Rec(%s)" % ", ".join("%s=%r" % kv for kv in sorted(self.fields.items()))
+
+
+_LD_CACHE = {}
+_FN_FACTS = {}
+_NORM = {}
+
+
+def _norm(e):
+    k = id(e)
+    v = _NORM.get(k)
+    if v is None or v[0] is not e:
+        v = (e, norm(e))
+        _NORM[k] = v
+    return v[1]
+
+
+def _fn_facts(fn):
+    """per function, computed once: simple `name = expr` assignments by name, other stores by name,
+    and the statement lists (blocks)."""
+    k = id(fn)
+    f = _FN_FACTS.get(k)
+    if f is not None and f[0] is fn:
+        return f[1]
+    defs, others, blocks = {}, {}, []
+    dt = set()
+    for n in ast.walk(fn):
+        if isinstance(n, ast.Assign) and len(n.targets) == 1 and isinstance(n.targets[0], ast.Name):
+            defs.setdefault(n.targets[0].id, []).append(n)
+            dt.add(id(n.targets[0]))
+        for field in ("body", "orelse", "finalbody"):
+            stmts = getattr(n, field, None)
+            if isinstance(stmts, list) and stmts and isinstance(stmts[0], ast.stmt):
+                blocks.append(stmts)
+    for t in ast.walk(fn):
+        if isinstance(t, ast.Name) and isinstance(t.ctx, ast.Store) and id(t) not in dt:
+            others.setdefault(t.id, []).append(t)
+    facts = (defs, others, blocks)
+    _FN_FACTS[k] = (fn, facts)
+    return facts
+
+
 def _local_def(fn, name):
     """The one assignment `name = <expr>` that provably reaches the use: either the only assignment
     of that name in the function, or the latest one above the use that is a sibling of a statement
-    containing the use (same straight-line block), with no loop around the use re-assigning it."""
-    defs = [n for n in ast.walk(fn) if isinstance(n, ast.Assign) and len(n.targets) == 1
-            and isinstance(n.targets[0], ast.Name) and n.targets[0].id == name.id]
-    dt = {id(d.targets[0]) for d in defs}
-    others = [t for t in ast.walk(fn) if isinstance(t, ast.Name) and t.id == name.id
-              and isinstance(t.ctx, ast.Store) and id(t) not in dt]
+    containing the use (same straight-line block), with nothing in between re-assigning it."""
+    ck = (id(fn), id(name))
+    hit = _LD_CACHE.get(ck)
+    if hit is not None and hit[0] is name:
+        return hit[1]
+    r = _local_def_uncached(fn, name)
+    _LD_CACHE[ck] = (name, r)
+    return r
+
+
+def _local_def_uncached(fn, name):
+    alld, allo, blocks = _fn_facts(fn)
+    defs = alld.get(name.id, [])
+    others = allo.get(name.id, [])
     if len(defs) == 1 and not others:
         return defs[0]
     if not hasattr(name, "lineno"):
@@ -33,26 +99,26 @@ def _local_def(fn, name):
     if not above:
         return None
     d = max(above, key=lambda x: x.lineno)
-    for blk in ast.walk(fn):
-        for field in ("body", "orelse", "finalbody"):
-            stmts = getattr(blk, field, None)
-            if not isinstance(stmts, list) or d not in stmts:
-                continue
-            after = stmts[stmts.index(d) + 1:]
-            holder = [s_ for s_ in after if any(x is name for x in ast.walk(s_))]
-            if not holder:
-                return None
-            between = after[:after.index(holder[0])]
-            for s_ in between + holder[:1]:
-                for x in ast.walk(s_):
-                    if isinstance(x, ast.Name) and x.id == name.id and isinstance(x.ctx, ast.Store):
-                        return None
-            return d
+    for stmts in blocks:
+        if not any(x is d for x in stmts):
+            continue
+        i = [k for k, x in enumerate(stmts) if x is d][0]
+        after = stmts[i + 1:]
+        holder = [s_ for s_ in after if s_.lineno <= name.lineno <= s_.end_lineno
+                  and any(x is name for x in ast.walk(s_))]
+        if not holder:
+            return None
+        between = after[:after.index(holder[0])]
+        for s_ in between + holder[:1]:
+            for x in ast.walk(s_):
+                if isinstance(x, ast.Name) and x.id == name.id and isinstance(x.ctx, ast.Store):
+                    return None
+        return d
     return None
 
 
 def ev(e, env):
-    key = norm(e)
+    key = _norm(e)
     if key in env:
         return env[key]
     if isinstance(e, ast.Constant):
@@ -152,6 +218,21 @@ def ev(e, env):
                 finally:
                     busy.discard(e.id)
         raise Unknown(key)
+    if isinstance(e, ast.Attribute):
+        base = ev(e.value, env)
+        if isinstance(base, Rec) and e.attr in base.fields:
+            return base.fields[e.attr]
+        raise Unknown(key)
+    if isinstance(e, ast.Call) and isinstance(e.func, ast.Attribute) and not e.keywords and not e.args \
+            and e.func.attr in ("items", "keys", "values"):
+        base = ev(e.func.value, env)
+        if isinstance(base, dict):
+            return tuple(getattr(base, e.func.attr)())
+    if isinstance(e, ast.Call) and isinstance(e.func, ast.Attribute) and not e.keywords \
+            and e.func.attr in ("intersection", "union", "difference", "issubset"):
+        base = ev(e.func.value, env)
+        if isinstance(base, (frozenset, set, tuple)):
+            return getattr(frozenset(base), e.func.attr)(*[frozenset(ev(a, env)) for a in e.args])
     if isinstance(e, ast.Call) and isinstance(e.func, ast.Name) and not e.keywords:
         args = [ev(a, env) for a in e.args]
         fn = {"min": min, "max": max, "len": len, "bool": bool, "int": int, "abs": abs,
@@ -159,7 +240,79 @@ def ev(e, env):
               "frozenset": frozenset, "sorted": lambda x: tuple(sorted(x))}.get(e.func.id)
         if fn:
             return fn(*args)
+        if e.func.id == "next" and len(args) == 2:
+            return next(iter(args[0]), args[1])
+    if isinstance(e, ast.Call) and not e.keywords and env.get("__index__") is not None:
+        # a call of a small pure helper of the library is evaluated from the helper's own source
+        target = _helper(env["__index__"], e.func)
+        if target is not None:
+            return _call(target, [ev(a, env) for a in e.args], env)
     raise Unknown(key)
+
+
+_HELPERS = {}
+
+
+def _helper(index, func):
+    k = (id(index), _norm(func))
+    if k not in _HELPERS:
+        _HELPERS[k] = _helper_uncached(index, func)
+    return _HELPERS[k]
+
+
+def _helper_uncached(index, func):
+    if isinstance(func, ast.Name):
+        c = [f for f in index.all_functions() if f.cls is None and f.name == func.id]
+    elif isinstance(func, ast.Attribute) and isinstance(func.value, ast.Name):
+        c = [f for f in index.all_functions() if f.cls is not None and f.cls.name == func.value.id
+             and f.name == func.attr and any(isinstance(d, ast.Name) and d.id == "staticmethod"
+                                             for d in f.node.decorator_list)]
+    else:
+        return None
+    return c[0] if len(c) == 1 else None
+
+
+def _call(fi, args, env, depth=0):
+    """evaluate a helper made of docstring / assert / if / assignment / return statements."""
+    a = fi.node.args
+    if a.vararg or a.kwarg or a.kwonlyargs or len(args) > len(a.args) or depth > 3:
+        raise Unknown("call of " + fi.qname)
+    local = {"__index__": env.get("__index__")}
+    names = [x.arg for x in a.args]
+    defaults = [None] * (len(names) - len(a.defaults)) + list(a.defaults)
+    for i, nm in enumerate(names):
+        if i < len(args):
+            local[nm] = args[i]
+        elif defaults[i] is not None:
+            local[nm] = ev(defaults[i], {})
+        else:
+            raise Unknown("call of " + fi.qname)
+
+    class _Ret(Exception):
+        pass
+
+    def run(stmts):
+        for st_ in stmts:
+            if isinstance(st_, ast.Expr) and isinstance(st_.value, ast.Constant):
+                continue
+            if isinstance(st_, ast.Assert):
+                continue
+            if isinstance(st_, ast.Return):
+                r = _Ret()
+                r.value = None if st_.value is None else ev(st_.value, local)
+                raise r
+            if isinstance(st_, ast.If):
+                run(st_.body if ev(st_.test, local) else st_.orelse)
+                continue
+            if isinstance(st_, ast.Assign) and len(st_.targets) == 1 and isinstance(st_.targets[0], ast.Name):
+                local[st_.targets[0].id] = ev(st_.value, local)
+                continue
+            raise Unknown("statement `%s` in helper %s" % (norm(st_)[:40], fi.qname))
+    try:
+        run(fi.node.body)
+    except _Ret as r:
+        return r.value
+    return None
 
 
 def mismatches(expr, domain, spec, limit=3):
@@ -204,41 +357,133 @@ def check_cond(ctx, rule, fi, node_ast, expr, domain, spec, what, meaning, close
     return True
 
 
-def outcomes(g, fn_node, env, abort_only):
+def outcomes(g, fn_node, env, abort_only, memo=None, watch=None, reached=None):
     """Which ways can one function end for one assignment of its inputs?  Walks the CFG from the entry,
     deciding every test whose operands the assignment binds (through `ev`, locals resolved to their
-    reaching straight-line definition).  A test that cannot be decided is an unrelated check: if one of
-    its edges only aborts (`abort_only(test)` names that label) the other edge is taken - the unrelated
-    checks are assumed to pass - otherwise both edges are explored.  Returns a subset of
-    {"raise", "pass"} and the undecided tests that were explored both ways."""
-    env = dict(env)
-    env["__fn__"] = fn_node
+    reaching straight-line definition; a local assigned an evaluable expression on the walked path is
+    tracked, the operands the caller bound stay pinned).  A test that cannot be decided is an unrelated
+    check: if one of its edges only aborts (`abort_only(test)` names that label) the other edge is
+    taken - the unrelated checks are assumed to pass - otherwise both edges are explored and the paths
+    are marked undecided.  Returns {(ending, undecided)} with ending in "raise"/"pass", and the
+    undecided tests."""
+    pinned = set(env)
+    # locals worth tracking: those read by some test / loop head, or by the assignment of such a local
+    rk = ("__relevant__", id(fn_node))
+    if memo is not None and rk in memo:
+        relevant = memo[rk]
+    else:
+        relevant = set()
+        for n in g.nodes:
+            if n.kind in ("test", "loop") and n.expr is not None:
+                relevant |= {x.id for x in ast.walk(n.expr) if isinstance(x, ast.Name)}
+        grew = True
+        while grew:
+            grew = False
+            for n in g.nodes:
+                if n.kind == "stmt" and isinstance(n.ast, ast.Assign) and len(n.ast.targets) == 1 \
+                        and isinstance(n.ast.targets[0], ast.Name) and n.ast.targets[0].id in relevant:
+                    more = {x.id for x in ast.walk(n.ast.value) if isinstance(x, ast.Name)} - relevant
+                    if more:
+                        relevant |= more
+                        grew = True
+        if memo is not None:
+            memo[rk] = relevant
     out, both = set(), []
     seen = set()
-    st = [g.entry]
+    st = [(g.entry, (), False)]
     while st:
-        n = st.pop()
-        if n.id in seen:
+        n, loc, taint = st.pop()
+        key = (n.id, loc, taint)
+        if key in seen or len(seen) > 20000:
             continue
-        seen.add(n.id)
+        seen.add(key)
         if n is g.exit or n.kind == "return":
-            out.add("pass")
+            out.add(("pass", taint))
             continue
-        if n.kind in ("raise", "noreturn"):
-            out.add("raise")
+        if n.kind == "raise":
+            caught = [m for m, l in n.succ if m.kind == "handler"]
+            if caught:          # raised inside a try block that handles it: control continues there
+                st += [(m, loc, taint) for m in caught]
+                continue
+        if n.kind in ("raise", "noreturn") or n is getattr(g, "raise_exit", None):
+            out.add(("raise", taint))
             continue
+        if watch and n.kind == "stmt" and n.ast is not None and reached is not None:
+            txt = _norm(n.ast)
+            if txt in watch:
+                reached.add((txt, taint))
+        if n.kind not in ("test", "loop", "stmt"):
+            st += [(m, loc, taint) for m, l in n.succ if not l.startswith("exc")]
+            continue
+        if n.kind == "stmt" and not (isinstance(n.ast, ast.Assign) and len(n.ast.targets) == 1
+                                     and isinstance(n.ast.targets[0], ast.Name)
+                                     and n.ast.targets[0].id in relevant):
+            st += [(m, loc, taint) for m, l in n.succ if not l.startswith("exc")]
+            continue
+        # whether a test can be decided depends on WHICH operands are bound, not on their values:
+        # remembered across the assignments of one row
+        mk = (n.id, tuple(k for k, _ in loc)) if memo is not None else None
+        e2 = None
+        if mk is None or not memo.get(mk):
+            e2 = dict(env)
+            e2.update(dict(loc))
+            e2["__fn__"] = fn_node
         if n.kind == "test" and n.expr is not None:
             try:
-                v = bool(ev(n.expr, env))
-                st += [m for m, l in n.succ if l == ("T" if v else "F")]
+                if e2 is None:
+                    raise Unknown("memo")
+                v = bool(ev(n.expr, e2))
+                st += [(m, loc, taint) for m, l in n.succ if l == ("T" if v else "F")]
                 continue
-            except (Unknown, TypeError, AttributeError, KeyError, IndexError):
+            except (Unknown, TypeError, AttributeError, KeyError, IndexError) as ex:
+                if mk is not None and isinstance(ex, Unknown):
+                    memo[mk] = True
                 dl = abort_only(n)
                 if len(dl) == 1:
-                    st += [m for m, l in n.succ if l in ("T", "F") and l != dl[0]]
+                    st += [(m, loc, taint) for m, l in n.succ if l in ("T", "F") and l != dl[0]]
                 else:
                     both.append(n)
-                    st += [m for m, l in n.succ if l in ("T", "F")]
+                    st += [(m, loc, True) for m, l in n.succ if l in ("T", "F")]
                 continue
-        st += [m for m, l in n.succ if not l.startswith("exc")]
+        if e2 is None:
+            e2 = dict(env)
+            e2.update(dict(loc))
+            e2["__fn__"] = fn_node
+        if n.kind == "loop" and n.var and n.var not in pinned and n.expr is not None:
+            # a for loop over a sequence the assignment binds is walked element by element
+            try:
+                items = tuple(ev(n.expr, e2))
+            except (Unknown, TypeError, AttributeError, KeyError, IndexError):
+                items = None
+            if items is not None and len(items) <= 8:
+                d = dict(loc)
+                ik = "__iter__%d" % n.id
+                i = d.get(ik, 0)
+                try:
+                    if i < len(items):
+                        hash(items[i])
+                        d[ik] = i + 1
+                        d[n.var] = items[i]
+                        lab = "T"
+                    else:
+                        d.pop(ik, None)
+                        lab = "F"
+                    loc2 = tuple(sorted(d.items(), key=lambda kv: kv[0]))
+                    st += [(m, loc2, taint) for m, l in n.succ if l == lab]
+                    continue
+                except TypeError:
+                    pass
+        if n.kind == "stmt" and isinstance(n.ast, ast.Assign) and len(n.ast.targets) == 1 \
+                and isinstance(n.ast.targets[0], ast.Name) and n.ast.targets[0].id not in pinned:
+            nm = n.ast.targets[0].id
+            d = dict(loc)
+            try:
+                val = ev(n.ast.value, e2)
+                hash(val)
+                d[nm] = val
+            except (Unknown, TypeError, AttributeError, KeyError, IndexError):
+                d.pop(nm, None)
+            loc = tuple(sorted(d.items(), key=lambda kv: kv[0]))
+        nxt = [(m, l) for m, l in n.succ if not l.startswith("exc")]
+        st += [(m, loc, taint or (n.kind == "loop" and len(nxt) > 1)) for m, l in nxt]
     return out, both
